@@ -181,28 +181,29 @@ func (n *Node[K, V]) delete(b *BsTree[K, V], key K) (*Node[K, V], error) {
 
 // Traverse iterates over the tree structure and invokes the callback function provided as a parameter.
 func (b *BsTree[K, V]) Traverse(fn func(Item[K, V])) {
-	ch := make(chan Item[K, V])
-	go func() {
-		b.mu.RLock()
-		b.root.traverse(b, ch)
-		b.mu.RUnlock()
+	// Collect the items under the read lock and invoke the callback once the lock is released:
+	// the callback may use the tree itself, and a callback which panics leaves no lock behind.
+	var items []Item[K, V]
 
-		close(ch)
-	}()
+	b.mu.RLock()
+	b.root.traverse(func(item Item[K, V]) {
+		items = append(items, item)
+	})
+	b.mu.RUnlock()
 
-	for item := range ch {
+	for _, item := range items {
 		fn(item)
 	}
 }
 
-func (n *Node[K, V]) traverse(b *BsTree[K, V], ch chan<- Item[K, V]) {
+func (n *Node[K, V]) traverse(visit func(Item[K, V])) {
 	if n == nil {
 		return
 	}
-	n.Left.traverse(b, ch)
-	ch <- Item[K, V]{
+	n.Left.traverse(visit)
+	visit(Item[K, V]{
 		Key: n.Key,
 		Val: n.Val,
-	}
-	n.Right.traverse(b, ch)
+	})
+	n.Right.traverse(visit)
 }
